@@ -16,6 +16,7 @@ use std::time::{Duration, Instant};
 use serde_json::{json, Value as Json};
 
 pub mod alloc;
+pub mod sched;
 
 #[derive(Copy, Clone, Debug, PartialEq, Eq)]
 pub enum Tier {
